@@ -14,6 +14,7 @@ type Clause struct {
 	Kind string // requires ensures invariant decreases
 	X    *SX
 	Tags []string // property ids, e.g. C01
+	Follows bool  // [follows]: an ensures clause that is a consequence of the entry facts and the earlier ensures alone
 	Src  string
 	File string
 	Line int
@@ -53,7 +54,7 @@ type FuncContract struct {
 
 var (
 	reFunc = regexp.MustCompile(`^func\s+([A-Za-z0-9_.]+)\s*\(([^)]*)\)\s*(?:\(([^)]*)\))?\s*(.*)$`)
-	reTag  = regexp.MustCompile(`\[(C[0-9]{2,3})\]`)
+	reTag  = regexp.MustCompile(`\[(C[0-9]{2,3}|follows)\]`)
 	reLoop = regexp.MustCompile(`^loop\s+([0-9]+)`)
 	reClosure = regexp.MustCompile(`^closure\s+([0-9]+)`)
 	reAt   = regexp.MustCompile(`^at\s+call\s+([A-Za-z0-9_./#]+)`)
@@ -93,7 +94,12 @@ func parseContractFile(path, pkgDir string) ([]*FuncContract, error) {
 		kind := pendKind
 		pend, pendKind = "", ""
 		tags := []string{}
+		follows := false
 		for _, m := range reTag.FindAllStringSubmatch(text, -1) {
+			if m[1] == "follows" {
+				follows = true
+				continue
+			}
 			tags = append(tags, m[1])
 		}
 		text = reTag.ReplaceAllString(text, "")
@@ -116,7 +122,7 @@ func parseContractFile(path, pkgDir string) ([]*FuncContract, error) {
 		switch kind {
 		case "requires", "ensures", "invariant":
 			for _, x := range xs {
-				c := &Clause{Kind: kind, X: x, Tags: tags, Src: x.String(), File: path, Line: pendLine}
+				c := &Clause{Kind: kind, X: x, Tags: tags, Follows: follows && kind == "ensures", Src: x.String(), File: path, Line: pendLine}
 				switch kind {
 				case "requires":
 					cur.Requires = append(cur.Requires, c)
